@@ -39,6 +39,8 @@ public:
   void visible(std::size_t n) { visible_ = n; } // characters of data_ that exist for the reader
   void accept_limit(long n) { accept_left_ = n; } // -1: unlimited
   void seekable(bool b) { seekable_ = b; }
+  void putback(bool b) { putback_ = b; }
+  std::size_t putback_refused() const { return putback_refused_; }
   // fail the k-th refill from now on, independent of the per-operation fault controller
   void fail_refill_at(long k) { own_refill_target_ = k; own_refill_count_ = 0; }
   string const &data() const { return data_; }
@@ -90,10 +92,18 @@ protected:
     return traits::to_int_type(*this->gptr());
   }
 
-  // putback / unget of at least one character works everywhere (as with stringbuf and filebuf):
-  // when the get area has nothing before gptr, it is re-seated one character earlier
+  // putback / unget: with putback(true) one character can always be put back (as with stringbuf
+  // and filebuf: when the get area has nothing before gptr, it is re-seated one character
+  // earlier); with putback(false) there is no put-back support beyond what the current get area
+  // happens to hold - the default of std::basic_streambuf, and what most hand-written stream
+  // buffers do
   int_type pbackfail(int_type c) override
   {
+    if (!putback_)
+    {
+      ++putback_refused_;
+      return traits::eof();
+    }
     std::size_t const pos = logical_pos();
     if (pos == 0 || pos > size())
       return traits::eof();
@@ -190,6 +200,8 @@ private:
   std::size_t visible_ = npos;
   long accept_left_ = -1;
   bool seekable_ = true;
+  bool putback_ = true;
+  std::size_t putback_refused_ = 0;
   bool threw_ = false;
   std::size_t fault_pos_ = 0;
   bool seek_failed_ = false;
